@@ -11,6 +11,8 @@ cd harness
 go build ./internal/... || exit 1
 for d in c[0-9][0-9]; do
   [ -d "$d" ] || continue
-  go test -c -tags verif -vet=off -o /dev/null ./$d || { echo "setup: build of $d failed"; exit 1; }
+  race=""
+  if python3 -c "import sys; sys.path.insert(0,'..'); from checks_config import CHECKS; sys.exit(0 if any(c['pkg']=='$d' and c.get('race') for c in CHECKS.values()) else 1)"; then race="-race"; fi
+  go test -c -tags verif -vet=off $race -o /dev/null ./$d || { echo "setup: build of $d failed"; exit 1; }
 done
 echo "setup done"
